@@ -264,3 +264,109 @@ Proof.
   - destruct (length (e_ct env) <? 24)%nat; [discriminate|]. destruct (open _ _ _ _); discriminate.
   - exfalso. eapply recover_total; eauto. rewrite H1. exact H2.
 Qed.
+
+(* ---- the derivation contexts bind (envelope id, context) injectively ---- *)
+Definition digit_step (v : nat) (d : Z) : nat := (v * 10 + Z.to_nat (d - 48))%nat.
+
+Lemma itoa_aux_value : forall fuel n acc,
+  (n < fuel)%nat -> fold_left digit_step (itoa_aux fuel n acc) 0%nat = fold_left digit_step acc n.
+Proof.
+  induction fuel as [|f IH]; intros n acc Hn; [lia|]. cbn [itoa_aux].
+  destruct (Nat.eqb (n / 10) 0) eqn:E.
+  - apply Nat.eqb_eq in E. cbn [fold_left]. f_equal. unfold digit_step.
+    assert (n < 10)%nat by (apply Nat.div_small_iff in E; lia).
+    rewrite Nat.mod_small by lia. lia.
+  - apply Nat.eqb_neq in E.
+    assert (Hd : (n / 10 < f)%nat).
+    { assert (n / 10 < n)%nat by (apply Nat.div_lt; lia). lia. }
+    rewrite IH by exact Hd. cbn [fold_left]. f_equal. unfold digit_step.
+    pose proof (Nat.div_mod n 10). pose proof (Nat.mod_upper_bound n 10). lia.
+Qed.
+
+Lemma itoa_inj n m : itoa n = itoa m -> n = m.
+Proof.
+  intros H. apply (f_equal (fun l => fold_left digit_step l 0%nat)) in H.
+  unfold itoa in H. rewrite !itoa_aux_value in H by lia. exact H.
+Qed.
+
+Lemma itoa_aux_digits : forall fuel n acc,
+  Forall (fun d => d <> 58) acc -> Forall (fun d => d <> 58) (itoa_aux fuel n acc).
+Proof.
+  induction fuel as [|f IH]; intros n acc HA; [exact HA|]. cbn [itoa_aux].
+  assert (Hd : Z.of_nat (n mod 10) + 48 <> 58).
+  { pose proof (Nat.mod_upper_bound n 10). lia. }
+  destruct (Nat.eqb (n / 10) 0); [constructor; auto|apply IH; constructor; auto].
+Qed.
+
+Lemma split_at_colon : forall (l1 l2 : bytes) (r1 r2 : sbytes),
+  Forall (fun d => d <> 58) l1 -> Forall (fun d => d <> 58) l2 ->
+  lift l1 ++ B 58 :: r1 = lift l2 ++ B 58 :: r2 -> l1 = l2 /\ r1 = r2.
+Proof.
+  induction l1 as [|x l1 IH]; intros [|y l2] r1 r2 H1 H2 H; cbn [lift map app] in H.
+  - inversion H. auto.
+  - inversion H; subst. inversion H2; subst. congruence.
+  - inversion H; subst. inversion H1; subst. congruence.
+  - inversion H; subst. inversion H1; inversion H2; subst.
+    destruct (IH l2 r1 r2) as [-> ->]; auto.
+Qed.
+
+(* a length-prefixed field is self-delimiting *)
+Lemma len_field_inj a b x y : len_field a ++ x = len_field b ++ y -> a = b /\ x = y.
+Proof.
+  unfold len_field. rewrite <- !app_assoc. cbn [app]. intros H.
+  apply split_at_colon in H; try (apply itoa_aux_digits; constructor).
+  destruct H as [H1 H2]. apply itoa_inj in H1. apply app_eq_len in H2; auto.
+Qed.
+
+Lemma kd_ctx_inj id ctx id' ctx' : kd_ctx id ctx = kd_ctx id' ctx' -> id = id' /\ ctx = ctx'.
+Proof.
+  unfold kd_ctx. intros H. apply app_inv_head in H. apply app_inv_head in H.
+  apply len_field_inj in H. destruct H as [-> H]. split; [reflexivity|].
+  cbn [app] in H. inversion H as [H']. rewrite <- (app_nil_r (len_field ctx)), <- (app_nil_r (len_field ctx')) in H'.
+  apply len_field_inj in H'. tauto.
+Qed.
+
+Lemma grant_ctx_inj id ctx gi id' ctx' gi' :
+  grant_ctx id ctx gi = grant_ctx id' ctx' gi' -> id = id' /\ ctx = ctx' /\ gi = gi'.
+Proof.
+  unfold grant_ctx. intros H. apply app_inv_head in H. apply app_inv_head in H.
+  apply len_field_inj in H. destruct H as [-> H]. cbn [app] in H. inversion H as [H'].
+  apply len_field_inj in H'. destruct H' as [-> H']. cbn [app] in H'. inversion H' as [H''].
+  apply lift_inj, itoa_inj in H''. auto.
+Qed.
+
+(* a tampered envelope that still opens does so only under the sealing
+   context and with the original envelope id: rewriting the id and
+   recomputing the context hash for another context cannot succeed *)
+Lemma tamper_binds_context o r ctx payload kps cfg env env' ctx' privs p res :
+  build o r ctx payload kps cfg = Ok env ->
+  (forall x, In x (r_nonce r) -> is_keyed_out x = false) ->
+  keyed_from (env_bytes env) (e_ct env') ->
+  unlock o ctx' env' privs = Ok (Some p, res) ->
+  p = payload /\ ctx' = ctx /\ e_id env' = e_id env.
+Proof.
+  intros HB HNonce HF HU. pose proof (tamper_same_payload _ _ _ _ _ _ _ _ _ _ _ _ HB HNonce HF HU) as HP.
+  split; [exact HP|]. apply build_inv in HB.
+  destruct HB as (cf & gs & _ & _ & _ & _ & _ & _ & HE & ->).
+  apply enc_grants_inv in HE. destruct HE as [_ HG].
+  apply unlock_success_inv in HU. destruct HU as [sec HO]. apply open_spec in HO.
+  assert (HI : In (F FN_SEAL (map pack [enc_key sec (e_id env') ctx'; firstn 24 (e_ct env'); []; p]) 0%nat)
+                  (e_ct env')).
+  { apply (in_skipn 24). rewrite HO. apply fapp_in_head. unfold tag_len. lia. }
+  pose proof (HF _ HI eq_refl) as HI2. clear HI. unfold env_bytes in HI2. cbn [e_ct e_grants] in HI2.
+  cbn [e_id]. apply in_app_or in HI2. destruct HI2 as [HI|HI].
+  - apply in_app_or in HI. destruct HI as [HI|HI].
+    + apply HNonce in HI. discriminate.
+    + apply in_fapp in HI. destruct HI as (i & HI). apply F_pack_inj in HI. destruct HI as [_ HA].
+      apply list4_inj in HA. destruct HA as (HK & _). unfold enc_key, kdf in HK.
+      apply fapp_inj in HK; [|lia]. destruct HK as (_ & _ & HK). apply list2_inj in HK.
+      destruct HK as [HK _]. apply kd_ctx_inj in HK. tauto.
+  - exfalso. apply in_concat in HI. destruct HI as (c & Hc & HI).
+    apply in_concat in Hc. destruct Hc as (cts & Hcts & Hc). apply in_map_iff in Hcts.
+    destruct Hcts as (g & <- & Hg). rewrite Forall_forall in HG. specialize (HG g Hg).
+    rewrite Forall_forall in HG. destruct (HG c Hc) as (pub & ectx & inner & HL & ->).
+    pose proof (keyed_in_enc_ct _ _ _ _ _ HI eq_refl) as HK. cbv zeta in HK. destruct HK as [HK|HK];
+      apply in_fapp in HK; destruct HK as (i & HK); apply F_pack_inj in HK; destruct HK as [Hf HA];
+      [discriminate Hf|].
+    apply list4_inj in HA. destruct HA as (HA & _). unfold enc_key in HA. eapply kdf_ne_dh; eauto.
+Qed.
